@@ -8,7 +8,7 @@ COMMON_TB = [
 CONFIG = {}
 
 CONFIG["C14"] = dict(
-    lean_modules=["Props.C14"],
+    lean_modules=["Props.C14", "Props.C14Restore"],
     generators=["C14"],
     level="proof",
     rule="structured generator: constructor lengths 0..64/0..14, restore lengths 0..60, random read-size sequences over "
@@ -21,7 +21,9 @@ CONFIG["C14"] = dict(
     ],
     technique="Lean 4 proof (invariant over read sequences, restore/store round-trip) + differential run of model vs real code",
     level_text="Theorems for every seed, customizer, read-size sequence and store offset (< 2^38 bytes) over an arbitrary 64-byte block function; "
-               "the RFC 8439 block function is a kernel-checked KAT; x/crypto's cipher is tied to the model by correspondence",
+               "the RFC 8439 block function is a kernel-checked KAT; x/crypto's cipher is tied to the model by correspondence. "
+               "Props.C14Restore: for EVERY 52-byte string RestoreChacha20PRG accepts (not only outputs of Store): the restored generator holds exactly the string's fields (restore_fields), "
+               "Store() of it returns the same bytes (store_restore) and, for a counter field T < 2^38, it satisfies the invariant of a generator that has output T bytes (restore_positions), so read_spec applies to it",
     level_note="Lean kernel; x/crypto chacha20 modelled (buffering + block function) and compared on generated op sequences; constants regenerated from source",
     assumptions=["total output below 2^38 bytes (RFC 8439 32-bit block counter) for restore_store; below 2^64 for read_concat"],
 )
